@@ -359,10 +359,9 @@ func checkC20(c *Ctx, r *Report) {
 		if ro == nil {
 			r3.Fail("getFilterState: readOnly test", gf.Pos(), "not found", "")
 		} else {
-			stateIsAllowed := edgeCmp(func(b *ssa.BinOp) bool {
-				v, ok := constInt(b.Y)
-				return ok && v == stAllowed && b.Op == token.NEQ && isResultOfCall(b.X, 0, "(*"+swarmP+".BlackHoleSuccessCounter).State") != nil
-			}, false)
+			stateIsAllowed := edgeIntBound(func(v ssa.Value) bool {
+				return isResultOfCall(v, 0, "(*"+swarmP+".BlackHoleSuccessCounter).State") != nil
+			}, stAllowed, stAllowed, false)
 			r3.guard(gf, "return non-Blocked constant [readOnly]", allowedRets, "State()==Allowed", stateIsAllowed, map[ssa.Value]bool{ro: true})
 			// in read-only mode the answer is a constant, never HandleRequest's
 			for _, ret := range returnsOf(gf) {
@@ -388,18 +387,14 @@ func checkC20(c *Ctx, r *Report) {
 			}
 		}
 		stateEq := func(k int64) EdgePred {
-			return edgeCmp(func(b *ssa.BinOp) bool {
-				v, ok := constInt(b.Y)
-				return ok && v == k && b.Op == token.EQL && isLoadOfField(ctrT+".state")(strip2(b.X))
-			}, false)
+			return edgeExcl(func(v ssa.Value) bool { return isLoadOfField(ctrT + ".state")(strip2(v)) }, func(v ssa.Value) bool { kk, ok := constInt(v); return ok && kk == k }, ordEQ)
 		}
 		r4.guard(hr, "return Blocked", blockedRets, "state != Allowed", stateEq(stAllowed), nil)
 		r4.guard(hr, "return Blocked", blockedRets, "state != Probing", stateEq(stProbing), nil)
-		r4.guard(hr, "return Blocked", blockedRets, "requests % N != 0", edgeCmp(func(b *ssa.BinOp) bool {
-			_, ok := constInt(b.Y) // any fixed residue lets one request per N through
-			rem, isRem := b.X.(*ssa.BinOp)
-			return ok && b.Op == token.EQL && isRem && rem.Op == token.REM && isLoadOfField(ctrT+".requests")(strip2(rem.X)) && isLoadOfField(ctrT+".N")(strip2(rem.Y))
-		}, false), nil)
+		r4.guard(hr, "return Blocked", blockedRets, "requests % N != 0", edgeExcl(func(v ssa.Value) bool {
+			rem, isRem := v.(*ssa.BinOp)
+			return isRem && rem.Op == token.REM && isLoadOfField(ctrT+".requests")(strip2(rem.X)) && isLoadOfField(ctrT+".N")(strip2(rem.Y))
+		}, func(v ssa.Value) bool { _, ok := constInt(v); return ok }, ordEQ), nil) // any fixed residue lets one request per N through
 		// requests++ on every call
 		q := &Cut{Fn: hr, Target: func(in ssa.Instruction) bool { _, ok := in.(*ssa.Return); return ok }, Sep: fieldWritePred(ctrT + ".requests")}
 		r4.mustPass(hr, "HandleRequest: every exit passes requests++", q, 1)
